@@ -16,7 +16,8 @@ Open Scope Q_scope.
 Inductive bspec :=
 | BNone
 | BScalar (x : Xq)
-| BSeries (ts : list Q) (vals : list Q).     (* Timeseries bound, finite values *)
+| BSeries (ts : list Q) (vals : list Q)      (* Timeseries bound, finite values *)
+| BGrid (vals : list Xq).                    (* Timeseries given on the variable's own stamps; entries may be +-inf *)
 
 Record hist := { h_times : list Q; h_vals : list Xq }.   (* last stamp = t0 by convention *)
 
@@ -253,6 +254,7 @@ Definition bound_at (b : bspec) (outside : Xq) (md : mode) (tgrid : list Q) : li
       | Val l => l
       | Raise => map (fun _ => XNaN) tgrid
       end
+  | BGrid vals => map (fun i => nth i vals outside) (seq 0 (length tgrid))
   end.
 
 Definition hist_last (h : hist) : Xq := last (h_vals h) XNaN.
